@@ -124,7 +124,9 @@ func Setup(files map[string]string, consulKV map[string]string) (*Env, error) {
 	viper.Set("taskClassCacheTTL", "168h")
 	viper.Set("fmqPlugin", "OCClite")
 	viper.Set("fmqPluginSearchPath", "/nonexistent")
-	viper.Set("integrationPlugins", []string{})
+	if !viper.IsSet("integrationPlugins") {
+		viper.Set("integrationPlugins", []string{})
+	}
 	_ = apricot.Instance()
 	_ = the.RepoManager()
 	e.EventCh = make(chan event.Event, 4096)
